@@ -568,6 +568,8 @@ uint64_t** const vp_this_naxes_p = &naxes;   /* `this->naxes` where a local of t
 /* the members of the OTHER object of a move (R36) */
 uint32_t vp_other_ndim; uint32_t* vp_other_order; double** vp_other_knots; uint64_t* vp_other_nknots; double** vp_other_extents; double* vp_other_periods; float* vp_other_coefficients; uint64_t* vp_other_naxes; uint64_t* vp_other_strides; uint32_t vp_other_naux; char_ptr_ptr_ptr vp_other_aux;
 bool vp_other_is_this; void vp_swap(void* a, void* b); void vp_swap_allocators(void);
+bool vp_equal(const void* first, const void* last, const void* other);     /* std::equal */
+uint64_t vp_product_u64(const uint64_t* first, const uint64_t* last);       /* std::accumulate(first,last,1ULL,multiplies<uint64_t>) */
 int vp_thrown;                               /* ghost: an exception has been thrown (R7) */
 bool vp_guard_armed;                         /* the `armed` member of a local scope guard (R28) */
 void release(void); bool read_fits_core_body(fitsfile* fits); int vp_isfinite(double);
@@ -734,6 +736,19 @@ def fits_functions():
         _no_cxx_left("release", body)
         out["release"] = Extracted("release", "void release(void)", body, r2, SPLINETABLE_H, X.find_loops(body))
     elif re.search(r"(?<![A-Za-z0-9_])release\(", out["destructor"].body): raise ExtractionError("~splinetable calls release() but its definition was not found")
+    # --- operator== (R37): comparison with another object whose members are vp_other_*; get_ncoeffs() inlined from its definition
+    try: start, header, body, end = X.find_function(st, r"bool\s+operator==\s*\(")
+    except ExtractionError: body = None
+    if body is not None:
+        r5 = X.Rules(); r5.counts["R1_member"] = 1; body = X.strip_comments(body)
+        g = re.search(r"uint64_t\s+get_ncoeffs\(\)\s*const\s*\{\s*return\(std::accumulate\(naxes,naxes\+ndim,1ULL,std::multiplies<uint64_t>\(\)\)\);\s*\}", X.strip_comments(st))
+        if not g: raise ExtractionError("get_ncoeffs() is no longer the product of naxes (R37 inlines it)")
+        body = r5.sub("R37_get_ncoeffs", r"other\.get_ncoeffs\(\)", "vp_product_u64(vp_other_naxes, vp_other_naxes + vp_other_ndim)", body, must_fire=True)
+        body = r5.sub("R37_get_ncoeffs", r"(?<![A-Za-z0-9_.])get_ncoeffs\(\)", "vp_product_u64(naxes, naxes + ndim)", body, must_fire=True)
+        body = r5.sub("R16_equal", r"std::equal\(", "vp_equal(", body, must_fire=True)
+        body = r5.sub("R36_other_member", r"(?<![A-Za-z0-9_])other\.(\w+)", r"vp_other_\1", body, must_fire=True)
+        _no_cxx_left("operator==", body)
+        out["equals"] = Extracted("vp_equals", "bool vp_equals(void)", body, r5, SPLINETABLE_H, X.find_loops(body))
     # --- move constructor and move assignment (R36): the other object's members are a second set of variables vp_other_<member>
     MEMBERS = ("ndim", "order", "knots", "nknots", "extents", "periods", "coefficients", "naxes", "strides", "naux", "aux")
     blank = X.blank_comments_and_strings(st)
